@@ -7,13 +7,15 @@ import LospanVerif.Props.C07
   write makes the handler stop:
 
   * uplink: the counter write is step 1, the inbox insert is step 2 of the handler
-    (`C03_accept_moves_counter`; `C10_inbox_only_after_counter`); a failed counter write ends the
-    handler for that device (`C03_failed_write_stops`);
+    (`C03_record_needs_accept`; `C10_inbox_only_after_counter`); a failed counter write ends the
+    handler for that device (`C03_failed_write_stops`); an accepted counter stays below the stored
+    one across any crash and any later history (`C03_accepted_below_stored`, `C03_no_second_acceptance`);
   * join: the nonce insert is step 3, the key change step 4, the join-accept is queued in step 5;
     a stored nonce makes every later insert fail (`C05_second_insert_fails`), a failed insert
     ends the handler (`C05_failed_insert_stops`);
-  * encoder: the counter is stored in step 1, the frame handed over in step 2
-    (`C07_persists_before_handover`), a failed write ends the encoder (`C07_failed_write_no_frame`);
+  * encoder: the counter is fetched and stored past in step 0, the frame handed over in step 2
+    (`C07_persists_before_handover`), a failed fetch ends the encoder (`C07_failed_write_no_frame`); a
+    counter handed out stays below the stored one across any crash (`C07_issued_below_stored`);
   * a crash drops threads, output buffer and scheduler state and keeps the database (`C10_crash_keeps_db`),
     so each of the above holds after recovery whatever the crash position.
 -/
@@ -37,7 +39,7 @@ theorem C10_inbox_only_after_counter (E : Spec.Rfc4493.BlockFn) (sys : Sys) (s :
     all_goals rfl
   · simp only [stepUplink, h]
     repeat' split
-    all_goals (first | rfl | (rename_i db hu; unfold DB.updateState at hu; split at hu <;> cases hu; rfl))
+    all_goals (first | rfl | (rename_i db hu; unfold DB.advanceFCntUp at hu; split at hu <;> cases hu; rfl))
 
 /-- The join handler changes keys (step 4) only after its own nonce insert (step 3) succeeded:
     steps 0..3 leave every device's keys alone. -/
